@@ -523,7 +523,10 @@ spifconf_shell_expand(spif_charptr_t s)
               break;
           case '\\':
               D_CONF(("Escape sequence detected.\n"));
-              if (!in_single || (in_single && *(pbuff + 1) == '\'')) {
+              if (!*(pbuff + 1)) {
+                  /* A backslash at the very end escapes nothing; keep it. */
+                  newbuff[j] = *pbuff;
+              } else if (!in_single || (in_single && *(pbuff + 1) == '\'')) {
                   switch (tolower(*(++pbuff))) {
                     case 'n':
                         newbuff[j] = '\n';
@@ -578,7 +581,7 @@ spifconf_shell_expand(spif_charptr_t s)
                   pbuff += l;
                   if (*pbuff != '(')
                       pbuff++;
-                  for (tmp1 = Command, pbuff++, l = 1; l && *pbuff; pbuff++, tmp1++) {
+                  for (tmp1 = Command, pbuff++, l = 1; l && *pbuff && (tmp1 < Command + CONFIG_BUFF - 1); pbuff++, tmp1++) {
                       switch (*pbuff) {
                         case '(':
                             l++;
@@ -591,9 +594,14 @@ spifconf_shell_expand(spif_charptr_t s)
                             break;
                       }
                   }
-                  *(--tmp1) = 0;
+                  if (tmp1 > Command) {
+                      /* Drop the closing parenthesis (nothing was copied if the input ended here). */
+                      tmp1--;
+                  }
+                  *tmp1 = 0;
                   if (l) {
                       libast_print_error("parse error in file %s, line %lu:  Mismatched parentheses\n", file_peek_path(), file_peek_line());
+                      FREE(Command);
                       return (spif_charptr_t) NULL;
                   }
                   Command = spifconf_shell_expand(Command);
@@ -656,11 +664,11 @@ spifconf_shell_expand(spif_charptr_t s)
                   EnvVar = (spif_charptr_t) MALLOC(128);
                   switch (*(++pbuff)) {
                     case '{':
-                        for (pbuff++, k = 0; *pbuff != '}' && k < 127; k++, pbuff++)
+                        for (pbuff++, k = 0; *pbuff && *pbuff != '}' && k < 127; k++, pbuff++)
                             EnvVar[k] = *pbuff;
                         break;
                     case '(':
-                        for (pbuff++, k = 0; *pbuff != ')' && k < 127; k++, pbuff++)
+                        for (pbuff++, k = 0; *pbuff && *pbuff != ')' && k < 127; k++, pbuff++)
                             EnvVar[k] = *pbuff;
                         break;
                     default:
@@ -671,11 +679,15 @@ spifconf_shell_expand(spif_charptr_t s)
                   EnvVar[k] = 0;
                   tmp = (spif_charptr_t) getenv((char *) EnvVar);
                   if (tmp && *tmp) {
-                      spiftool_safe_strncpy(newbuff, tmp, max - j);
+                      spiftool_safe_strncpy(newbuff + j, tmp, max - j);
                       cnt1 = strlen((char *) tmp) - 1;
                       cnt2 = max - j - 1;
                       j += MIN(cnt1, cnt2);
+                  } else {
+                      /* Unset or empty:  the reference expands to nothing. */
+                      j--;
                   }
+                  FREE(EnvVar);
                   pbuff--;
               } else {
                   newbuff[j] = *pbuff;
